@@ -33,7 +33,7 @@ def tmp_of_param(fl, os_, param, suffix):
 
 def run(ctx):
     F = ctx.F['cli']
-    ctx.rule('C08.R1', 'copy_atomic: copy(src, dst+".copia-tmp") Ok -> sync of the staged file Ok -> rename(tmp, dst)', floor=3)
+    ctx.rule('C08.R1', 'copy_atomic: content created only at dst+".copia-tmp"; copy Ok -> sync of the staged file Ok -> rename(tmp, dst); every success passes the rename', floor=5)
     ctx.rule('C08.R2', 'in the bisync call graph only copy_atomic and Archive::save create file content or rename', floor=4)
     ctx.rule('C08.R3', 'Archive::save: one call site, after the apply loop is exhausted, never after an apply error, not under dry_run', floor=3)
     ctx.rule('C08.R4', 'Archive::save: create(tmp) -> write_all Ok -> sync_all Ok -> rename(tmp, path); .bak first; parent sync after', floor=4)
@@ -52,35 +52,58 @@ def r1(ctx, F):
         ctx.missing('C08.R1', COPY)
     fl = flow_of(b)
     cfg = fl.cfg
-    copies = fl.calls(lambda c: c in ('std::fs::copy',))
-    renames = fl.calls(lambda c: c in RENAMES)
-    if len(copies) != 1 or len(renames) != 1:
-        ctx.missing('C08.R1', 'copy_atomic: exactly one fs::copy and one fs::rename (found %d/%d)' % (len(copies), len(renames)))
-    cb, ct = copies[0]
-    rb, rt = renames[0]
     src_i = param_index(b, 'src') or 1
     dst_i = param_index(b, 'dst') or 2
-    o_cdst = fl.origins(ct['args'][1], mut_calls=True)
-    o_csrc = fl.origins(ct['args'][0])
-    o_rsrc = fl.origins(rt['args'][0], mut_calls=True)
-    o_rdst = fl.origins(rt['args'][1])
-    staged = tmp_of_param(fl, o_cdst, dst_i, '.copia-tmp') and tmp_of_param(fl, o_rsrc, dst_i, '.copia-tmp')
-    ctx.check(staged and all(o.kind == 'param' and o.key == src_i for o in o_csrc) and all(o.kind == 'param' and o.key == dst_i for o in fl.origins(rt['args'][1], mut_calls=True)),
-              'C08.R1', 'copy_atomic:staging-name', 'copy(src, dst+".copia-tmp"); rename(dst+".copia-tmp", dst)',
-              'copy_atomic does not stage into dst+".copia-tmp" and rename that onto dst', term_loc(b, cb))
-    ctx.check(fl.guarded_by(rb, cb, 'Ok'), 'C08.R1', 'copy_atomic:copy-ok-guards-rename', 'rename only after copy returned Ok',
-              'copy_atomic renames the staging file even if the copy failed (partial data published)', term_loc(b, rb))
-    synced = False
-    for sb, st in fl.calls(lambda c: c in SYNC):
-        ho = fl.origins(st['args'][0])
-        for o in ho:
-            if o.kind == 'call' and o.key in tables.FS_READERS or o.kind == 'call' and o.key in tables.CONTENT_CREATORS:
-                po = call_arg_origins(fl, o.bb, tables.FS_READERS.get(o.key, tables.CONTENT_CREATORS.get(o.key, 0)), mut_calls=True)
-                if tmp_of_param(fl, po, dst_i, '.copia-tmp') and fl.guarded_by(rb, sb, 'Ok') and cfg.dominates(cb, sb):
-                    synced = True
-    ctx.check(synced, 'C08.R1', 'copy_atomic:fsync-before-rename', 'staged file flushed (sync_all Ok) between copy and rename',
-              'copy_atomic renames the staged file without fsync: the archive (which is fsynced) can become durable before the data it describes',
-              term_loc(b, rb))
+    creators = fl.calls(lambda c: c in tables.CONTENT_CREATORS and not c.endswith('OpenOptions::open'))
+    renames = fl.calls(lambda c: c in RENAMES)
+    is_tmp = lambda op: tmp_of_param(fl, fl.origins(op, mut_calls=True), dst_i, '.copia-tmp')
+    is_dst = lambda op: (lambda os_: bool(os_) and all(o.kind == 'param' and o.key == dst_i for o in os_))(fl.origins(op, mut_calls=True))
+    # (a) every call that creates file content in copy_atomic writes the staging name, never the live path
+    staged_copies = []
+    for cb, ct in creators:
+        c = callee(ct)
+        dop = ct['args'][tables.CONTENT_CREATORS[c]]
+        ok = is_tmp(dop)
+        ctx.check(ok, 'C08.R1', 'copy_atomic:%s:writes-staging-only' % c.split('::')[-1], 'content is created only at dst+".copia-tmp"',
+                  'copy_atomic creates file content with %s at a path that is not the reserved staging name dst+".copia-tmp": a kill during the write leaves a partial file at a live path' % c,
+                  term_loc(b, cb))
+        if ok and c.endswith('fs::copy'):
+            so = fl.origins(ct['args'][0])
+            if so and all(o.kind == 'param' and o.key == src_i for o in so):
+                staged_copies.append(cb)
+    for cb, ct in fl.calls(lambda c: c.endswith('OpenOptions::write') or c.endswith('OpenOptions::append') or c.endswith('OpenOptions::create')):
+        ctx.bad('C08.R1', 'copy_atomic:OpenOptions-write', 'copy_atomic opens a file for writing through OpenOptions (not the staged copy)', term_loc(b, cb))
+    if not staged_copies and not ctx.violations:
+        ctx.missing('C08.R1', 'copy_atomic: a copy(src, dst+".copia-tmp")')
+    if not renames:
+        ctx.missing('C08.R1', 'copy_atomic: rename(tmp, dst)')
+    # (b) every rename publishes the staged file onto dst, only after copy Ok and a flush Ok of the staged file
+    for rb, rt in renames:
+        shape = is_tmp(rt['args'][0]) and is_dst(rt['args'][1])
+        ctx.check(shape, 'C08.R1', 'copy_atomic:staging-name', 'rename(dst+".copia-tmp", dst)',
+                  'copy_atomic does not stage into dst+".copia-tmp" and rename that onto dst', term_loc(b, rb))
+        guarded = bool(staged_copies) and any(fl.guarded_by(rb, cb, 'Ok') for cb in staged_copies)
+        ctx.check(guarded, 'C08.R1', 'copy_atomic:copy-ok-guards-rename', 'rename only after copy returned Ok',
+                  'copy_atomic renames the staging file even if the copy failed (partial data published)', term_loc(b, rb))
+        synced = False
+        for sb, st in fl.calls(lambda c: c in SYNC):
+            for o in fl.origins(st['args'][0]):
+                if o.kind == 'call' and (o.key in tables.FS_READERS or o.key in tables.CONTENT_CREATORS):
+                    po = call_arg_origins(fl, o.bb, tables.FS_READERS.get(o.key, tables.CONTENT_CREATORS.get(o.key, 0)), mut_calls=True)
+                    if tmp_of_param(fl, po, dst_i, '.copia-tmp') and fl.guarded_by(rb, sb, 'Ok') and any(cfg.dominates(cb, sb) for cb in staged_copies):
+                        synced = True
+        ctx.check(synced, 'C08.R1', 'copy_atomic:fsync-before-rename', 'staged file flushed (sync_all Ok) between copy and rename',
+                  'copy_atomic renames the staged file without fsync: the archive (which is fsynced) can become durable before the data it describes',
+                  term_loc(b, rb))
+    # (c) once content was staged, a successful return passes the rename (an early Ok before any write is not judged)
+    oks = [rb_ for (rb_, kind, data) in ret_defs(b) if not (kind == 'call' and callee(data) == 'std::ops::FromResidual::from_residual')]
+    rn = {rb for rb, _ in renames}
+    reach_wo = set()
+    for cb, _ in creators:
+        reach_wo |= cfg.reach(cb, cut_blocks=rn)
+    exits_ok = [x for x in oks if x in reach_wo and not (b.blocks[x]['term']['k'] == 'call' and callee(b.blocks[x]['term']) in RENAMES)]
+    ctx.check(not exits_ok, 'C08.R1', 'copy_atomic:every-success-passes-rename', 'after content was written no non-error return is reachable without the rename',
+              'copy_atomic can write content and return a non-error result without having renamed the staged file onto dst', term_loc(b, exits_ok[0]) if exits_ok else None)
 
 
 def r2(ctx, F, bs):
